@@ -307,3 +307,232 @@ Definition operand_ok (s s2 : cstate) (locals : list name) (ln reg : Z) (e : exp
       exists rf', isem_okseq K (rev seg') rf = Some rf' /\ rkval K rf' save = Some v /\ len rf <= len rf' /\
                   reg' <= len rf' /\ (forall i, 0 <= i < reg -> zth rf' i = zth rf i) /\
                   (opIsK save = true \/ save < reg').
+
+Lemma is_opc_createABx : forall o o' a bx, 0 <= a < 256 -> 0 <= bx < 262144 ->
+  is_opc (opCreateABx (op_code o) a bx) o' = (op_code o =? op_code o').
+Proof.
+  intros o o' a bx Ha Hb. unfold is_opc.
+  destruct (VM.OpcodeFacts.createABx_get (op_code o) a bx (op_code_range o) Ha Hb) as [E0 _]. rewrite E0. reflexivity.
+Qed.
+
+Lemma is_opc_createABC : forall o o' a b c, 0 <= a < 256 -> 0 <= b < 512 -> 0 <= c < 512 ->
+  is_opc (opCreateABC (op_code o) a b c) o' = (op_code o =? op_code o').
+Proof.
+  intros o o' a b c Ha Hb Hc. unfold is_opc.
+  destruct (VM.OpcodeFacts.createABC_get (op_code o) a b c (op_code_range o) Ha Hb Hc) as [E0 _]. rewrite E0. reflexivity.
+Qed.
+
+Lemma default_operand : forall s s1 locals ln reg e,
+  expr_ok s s1 locals ln reg e -> 0 <= reg < 256 ->
+  operand_ok s s1 locals ln reg e reg (reg + 1).
+Proof.
+  intros s s1 locals ln reg e [H1 [H2 [H3 [H4 [seg [Hc [Hw [Hsh Hsem]]]]]]]] Hr.
+  unfold operand_ok. repeat (split; [reflexivity || assumption || lia|]).
+  exists seg. split; [assumption|]. split; [assumption|].
+  intros K HK rf v Hlen Hp. destruct (Hsem K HK rf v Hlen Hp) as [rf' [E1 [E2 [E3 E4]]]].
+  exists rf'. split; [assumption|]. pose proof (zth_range _ _ _ _ E2).
+  split; [unfold rkval; rewrite small_not_K by lia; assumption|].
+  split; [assumption|]. split; [lia|]. split; [assumption|]. right. lia.
+Qed.
+
+Lemma kmv_ok : forall s s1 locals ln reg e save reg' s2,
+  expr_ok s s1 locals ln reg e -> len locals <= reg -> 0 <= reg < 256 -> len locals <= 256 ->
+  propagateKMV reg 1 s1 = Some ((save, reg'), s2) ->
+  operand_ok s s2 locals ln reg e save reg'.
+Proof.
+  intros s s1 locals ln reg e save reg' s2 Hok Hl Hr Hloc Hp.
+  pose proof (default_operand _ _ _ _ _ _ Hok Hr) as Hdef.
+  destruct Hok as [H1 [H2 [H3 [H4 [seg [Hc [Hw [Hsh Hsem]]]]]]]].
+  unfold propagateKMV in Hp. rewrite Hc in Hp.
+  destruct Hsh as [ci f Hseg Hci Hz Hpv | b Hseg Hb Hpv | w seg0 Hseg Hn1 Hn2]; subst seg; cbn [app] in Hp.
+  - (* a constant *)
+    destruct (decodeABx OP_LOADK reg ci Hr Hci) as [_ [EA EB]].
+    rewrite EA, EB in Hp. rewrite H2 in Hp. replace (reg >=? len locals) with true in Hp by lia.
+    rewrite (is_opc_createABx OP_LOADK OP_LOADK reg ci Hr Hci) in Hp. rewrite Z.eqb_refl in Hp.
+    destruct (ci <=? opMaxIndexRk) eqn:Eci.
+    + inversion Hp; subst. unfold opMaxIndexRk in Eci.
+      destruct (rk_bits ci ltac:(lia)) as [B1 [B2 B3]].
+      unfold operand_ok. cbn [pop_code cs_locals cs_regtop cs_consts cs_code].
+      repeat (split; [reflexivity || assumption || lia|]).
+      exists []. split; [rewrite Hc; reflexivity|]. split; [constructor|].
+      intros K HK rf v Hlen Hp'. exists rf. rewrite Hpv in Hp'. inversion Hp'; subst v.
+      split; [reflexivity|]. split; [unfold rkval; rewrite B1, B2; eapply prefix_zth; eassumption|].
+      split; [lia|]. split; [lia|]. split; [auto|]. left. assumption.
+    + inversion Hp; subst. exact Hdef.
+  - (* a local variable *)
+    assert (Hb' : 0 <= b < 512) by lia.
+    destruct (decodeABC OP_MOVE reg b 0 Hr Hb' ltac:(lia)) as [_ [EA [EB _]]].
+    rewrite EA, EB in Hp. rewrite H2 in Hp. replace (reg >=? len locals) with true in Hp by lia.
+    rewrite (is_opc_createABC OP_MOVE OP_LOADK reg b 0 Hr Hb' ltac:(lia)) in Hp.
+    rewrite (is_opc_createABC OP_MOVE OP_MOVE reg b 0 Hr Hb' ltac:(lia)) in Hp.
+    cbn [op_code Z.eqb] in Hp. inversion Hp; subst.
+    unfold operand_ok. cbn [pop_code cs_locals cs_regtop cs_consts cs_code].
+    repeat (split; [reflexivity || assumption || lia|]).
+    exists []. split; [rewrite Hc; reflexivity|]. split; [constructor|].
+    intros K HK rf v Hlen Hp'. exists rf. rewrite Hpv in Hp'.
+    destruct (zth rf save) as [v0|] eqn:Ez; [|discriminate]. inversion Hp'; subst v0.
+    split; [reflexivity|]. split; [unfold rkval; rewrite small_not_K by lia; assumption|].
+    split; [lia|]. split; [lia|]. split; [auto|]. right. lia.
+  - (* anything else *)
+    rewrite Hn1, Hn2 in Hp.
+    destruct (opGetArgA w >=? cs_regtop s1); inversion Hp; subst; exact Hdef.
+Qed.
+
+Lemma mv_ok : forall s s1 locals ln reg e save reg' s2,
+  expr_ok s s1 locals ln reg e -> len locals <= reg -> 0 <= reg < 256 -> len locals <= 256 ->
+  propagateMV reg 1 s1 = Some ((save, reg'), s2) ->
+  operand_ok s s2 locals ln reg e save reg'.
+Proof.
+  intros s s1 locals ln reg e save reg' s2 Hok Hl Hr Hloc Hp.
+  pose proof (default_operand _ _ _ _ _ _ Hok Hr) as Hdef.
+  destruct Hok as [H1 [H2 [H3 [H4 [seg [Hc [Hw [Hsh Hsem]]]]]]]].
+  unfold propagateMV in Hp. rewrite Hc in Hp.
+  destruct Hsh as [ci f Hseg Hci Hz Hpv | b Hseg Hb Hpv | w seg0 Hseg Hn1 Hn2]; subst seg; cbn [app] in Hp.
+  - rewrite (is_opc_createABx OP_LOADK OP_MOVE reg ci Hr Hci) in Hp. cbn [op_code Z.eqb] in Hp.
+    rewrite andb_false_r in Hp. inversion Hp; subst. exact Hdef.
+  - assert (Hb' : 0 <= b < 512) by lia.
+    destruct (decodeABC OP_MOVE reg b 0 Hr Hb' ltac:(lia)) as [_ [EA [EB _]]].
+    rewrite EA, EB in Hp. rewrite H2 in Hp. replace (reg >=? len locals) with true in Hp by lia.
+    rewrite (is_opc_createABC OP_MOVE OP_MOVE reg b 0 Hr Hb' ltac:(lia)) in Hp.
+    cbn [op_code Z.eqb andb] in Hp. inversion Hp; subst.
+    unfold operand_ok. cbn [pop_code cs_locals cs_regtop cs_consts cs_code].
+    repeat (split; [reflexivity || assumption || lia|]).
+    exists []. split; [rewrite Hc; reflexivity|]. split; [constructor|].
+    intros K HK rf v Hlen Hp'. exists rf. rewrite Hpv in Hp'.
+    destruct (zth rf save) as [v0|] eqn:Ez; [|discriminate]. inversion Hp'; subst v0.
+    split; [reflexivity|]. split; [unfold rkval; rewrite small_not_K by lia; assumption|].
+    split; [lia|]. split; [lia|]. split; [auto|]. right. lia.
+  - rewrite Hn2 in Hp. rewrite andb_false_r in Hp. inversion Hp; subst. exact Hdef.
+Qed.
+
+Lemma existsb_find_last : forall l x, existsb (beqb x) l = true -> find_last l x 0 (-1) > -1.
+Proof.
+  assert (G : forall l x i acc, -1 <= acc -> (acc > -1 \/ existsb (beqb x) l = true) -> 0 <= i -> find_last l x i acc > -1).
+  { induction l as [|y l IH]; intros x i acc Ha H Hi; cbn [find_last existsb] in *.
+    - destruct H; [lia|discriminate].
+    - apply IH; try lia.
+      + destruct (beqb y x); lia.
+      + destruct (beqb y x) eqn:E; [left; lia|].
+        destruct H as [H|H]; [left; assumption|].
+        apply orb_true_iff in H. destruct H as [H|H]; [|right; assumption].
+        apply beqb_eq in H. subst. exfalso.
+        assert (beqb y y = true) by (clear; induction y; simpl; [reflexivity|rewrite Z.eqb_refl; assumption]).
+        congruence. }
+  intros l x H. apply (G l x 0 (-1)); [lia | right; assumption | lia].
+Qed.
+
+(* one instruction that writes the value of e into reg *)
+Lemma leaf_ok : forall s locals ln reg e w,
+  cs_locals s = locals -> cs_regtop s = len locals -> len (cs_consts s) <= 262144 ->
+  0 <= w < 2 ^ 32 -> 0 <= reg ->
+  shape (mkCS ((w, ln) :: cs_code s) (cs_consts s) (cs_locals s) (cs_regtop s)) locals reg ln e [(w, ln)] ->
+  (forall K, prefix_of (cs_consts s) K -> forall rf v, reg <= len rf -> pevr (vlook locals rf) e = PV v ->
+     isem_inst K w rf = okres (setr rf reg v)) ->
+  expr_ok s (mkCS ((w, ln) :: cs_code s) (cs_consts s) (cs_locals s) (cs_regtop s)) locals ln reg e.
+Proof.
+  intros s locals ln reg e w H1 H2 H3 Hw Hr Hsh Hsem.
+  unfold expr_ok. cbn [cs_locals cs_regtop cs_consts cs_code].
+  split; [assumption|]. split; [assumption|]. split; [assumption|]. split; [apply prefix_refl|].
+  exists [(w, ln)]. split; [reflexivity|]. split; [constructor; [split; [assumption|reflexivity]|constructor]|].
+  split; [assumption|].
+  intros K HK rf v Hlen Hp. cbn [rev app isem_okseq]. rewrite (Hsem K HK rf v Hlen Hp).
+  destruct (setr_post rf reg v ltac:(lia)) as [rf' [E1 [E2 [E3 E4]]]]. rewrite E1. cbn [okres].
+  exists rf'. split; [reflexivity|]. split; [assumption|]. split; [assumption|]. intros i Hi. apply E4. lia.
+Qed.
+
+Lemma is_opc_rawABC : forall opn o' a b c, 0 <= opn < 64 -> 0 <= a < 256 -> 0 <= b < 512 -> 0 <= c < 512 ->
+  is_opc (opCreateABC opn a b c) o' = (opn =? op_code o').
+Proof.
+  intros opn o' a b c Ho Ha Hb Hc. unfold is_opc.
+  destruct (VM.OpcodeFacts.createABC_get opn a b c Ho Ha Hb Hc) as [E0 _]. rewrite E0. reflexivity.
+Qed.
+
+Lemma loadk_ok : forall s locals ln reg e f ci s1,
+  cs_locals s = locals -> cs_regtop s = len locals -> len (cs_consts s) <= 262144 -> 0 <= reg < 256 ->
+  constIndex (VNum f) s = Some (ci, s1) -> (forall look, pevr look e = PV (VNum f)) ->
+  expr_ok s (mkCS ((opCreateABx (op_code OP_LOADK) reg ci, ln) :: cs_code s1) (cs_consts s1) (cs_locals s1) (cs_regtop s1))
+          locals ln reg e.
+Proof.
+  intros s locals ln reg e f ci s1 H1 H2 H3 Hr Hc Hp.
+  destruct (constIndex_spec _ _ _ _ H3 Hc) as [K1 [K2 [K3 [K4 [K5 [K6 K7]]]]]].
+  assert (Hok : expr_ok s1 (mkCS ((opCreateABx (op_code OP_LOADK) reg ci, ln) :: cs_code s1) (cs_consts s1) (cs_locals s1) (cs_regtop s1)) locals ln reg e).
+  { apply leaf_ok; try congruence; try lia.
+    - apply VM.OpcodeFacts.createABx_range.
+    - eapply ShConst; try reflexivity; eassumption.
+    - intros K HK rf v Hlen Hv. rewrite Hp in Hv. inversion Hv; subst v.
+      apply isem_loadk; try lia. eapply prefix_zth; eassumption. }
+  destruct Hok as [A1 [A2 [A3 [A4 [seg [A5 [A6 [A7 A8]]]]]]]].
+  unfold expr_ok. split; [assumption|]. split; [assumption|]. split; [assumption|]. split; [exact K4|].
+  exists seg. rewrite <- K5. auto.
+Qed.
+
+(* the leaves of the fragment's expressions: literals, local variables, parentheses *)
+Fixpoint expr_leaf (locals : list name) (e : expr) : bool :=
+  match e with
+  | ENil | ETrue | EFalse | ENum _ => true
+  | EVar x => existsb (beqb x) locals
+  | EParen a => expr_leaf locals a
+  | _ => false
+  end.
+
+Lemma compileExpr_leaf_ok : forall e locals ln reg ec s inc s',
+  expr_leaf locals e = true -> cs_locals s = locals -> cs_regtop s = len locals ->
+  len locals <= reg -> 0 <= reg -> reg + edepth e < 256 -> len locals <= 256 ->
+  savereg ec reg = reg -> len (cs_consts s) <= 262144 ->
+  compileExpr ln reg e ec s = Some (inc, s') ->
+  inc = 1 /\ expr_ok s s' locals ln reg e.
+Proof.
+  induction e as [| | |f|sb| |x|ea IHa ek IHk|fe args|ob m args|ps va body l1 l2|o e1 IH1 e2 IH2|o e1 IH1|e1 IH1 e2 IH2|e1 IH1 e2 IH2|e1 IH1|items];
+    intros locals ln reg ec s inc s' Hf H1 H2 Hl Hr0 Hd Hloc Hsv Hk Hc;
+    cbn [expr_leaf] in Hf; try discriminate; cbn [compileExpr] in Hc; rewrite ?Hsv in Hc;
+    replace (reg <? reg) with false in Hc by lia; cbn [edepth] in Hd.
+  - (* ENil *)
+    unfold cbind, addABC, add, cret in Hc. inversion Hc; subst inc s'. split; [reflexivity|].
+    apply leaf_ok; try assumption; try lia.
+    + apply VM.OpcodeFacts.createABC_range.
+    + eapply ShOther; [reflexivity| |]; rewrite is_opc_rawABC by lia; reflexivity.
+    + intros K HK rf v Hlen Hv. cbn [pevr] in Hv. inversion Hv; subst v. apply isem_loadnil1. lia.
+  - (* ETrue *)
+    unfold cbind, addABC, add, cret in Hc. inversion Hc; subst inc s'. split; [reflexivity|].
+    apply leaf_ok; try assumption; try lia.
+    + apply VM.OpcodeFacts.createABC_range.
+    + eapply ShOther; [reflexivity| |]; rewrite is_opc_rawABC by lia; reflexivity.
+    + intros K HK rf v Hlen Hv. cbn [pevr] in Hv. inversion Hv; subst v.
+      rewrite isem_loadbool by lia. reflexivity.
+  - (* EFalse *)
+    unfold cbind, addABC, add, cret in Hc. inversion Hc; subst inc s'. split; [reflexivity|].
+    apply leaf_ok; try assumption; try lia.
+    + apply VM.OpcodeFacts.createABC_range.
+    + eapply ShOther; [reflexivity| |]; rewrite is_opc_rawABC by lia; reflexivity.
+    + intros K HK rf v Hlen Hv. cbn [pevr] in Hv. inversion Hv; subst v.
+      rewrite isem_loadbool by lia. reflexivity.
+  - (* ENum *)
+    unfold cbind at 1 in Hc. destruct (constIndex (VNum f) s) as [[ci s1]|] eqn:Eci; [|discriminate].
+    unfold cbind, addABx, add, cret in Hc. inversion Hc; subst inc s'. split; [reflexivity|].
+    eapply loadk_ok; try eassumption; try lia. intro look. reflexivity.
+  - (* EVar *)
+    unfold FindLocalVar in Hc. rewrite H1 in Hc.
+    pose proof (existsb_find_last _ _ Hf) as Hb.
+    pose proof (find_last_range locals x 0 (-1) ltac:(lia)) as Hbr.
+    replace (find_last locals x 0 (-1) >? -1) with true in Hc by lia.
+    unfold cbind, addABC, add, cret in Hc. inversion Hc; subst inc s'. split; [reflexivity|].
+    apply leaf_ok; try assumption; try lia.
+    + apply VM.OpcodeFacts.createABC_range.
+    + eapply ShVar with (b := find_last locals x 0 (-1)); [reflexivity|lia|].
+      intro rf. cbn [pevr]. unfold vlook. replace (find_last locals x 0 (-1) >? -1) with true by lia.
+      destruct (zth rf (find_last locals x 0 (-1))); reflexivity.
+    + intros K HK rf v Hlen Hv. cbn [pevr] in Hv. unfold vlook in Hv.
+      replace (find_last locals x 0 (-1) >? -1) with true in Hv by lia.
+      destruct (zth rf (find_last locals x 0 (-1))) as [v0|] eqn:Ez; [|discriminate]. inversion Hv; subst v0.
+      apply isem_move; try lia. assumption.
+  - (* EParen *)
+    destruct (IH1 locals ln reg ec s inc s' Hf H1 H2 Hl Hr0 Hd Hloc Hsv Hk Hc) as [Hi Hok].
+    split; [assumption|].
+    destruct Hok as [A1 [A2 [A3 [A4 [seg [A5 [A6 [A7 A8]]]]]]]].
+    unfold expr_ok. repeat (split; [assumption|]). exists seg. split; [assumption|]. split; [assumption|]. split.
+    + destruct A7 as [ci g B1 B2 B3 B4|b B1 B2 B3|w seg0 B1 B2 B3].
+      * eapply ShConst; try eassumption.
+      * eapply ShVar; try eassumption.
+      * eapply ShOther; eassumption.
+    + intros K HK. exact (A8 K HK).
+Qed.
